@@ -40,6 +40,7 @@ type Clause struct {
 	Line   int
 	used   bool
 	TypeInv bool // requires clause that restates a type invariant
+	TypeInvOf string // the type whose invariant it restates ("" = any)
 	Assumed bool // "assume ..." clause: used at call sites, never verified (listed as trusted)
 }
 
@@ -75,6 +76,7 @@ type TypeInv struct {
 	Type   string
 	Fields []string
 	Owners []string
+	Preserving []string
 	Expr   string
 	Line   int
 	Stable bool // "stable" directive: the fields are written only by constructors, on objects they allocate
@@ -90,7 +92,10 @@ type EffectDirective struct {
 	Expr       string
 }
 
+type PropFile struct{ Prop, File, Re string }
+
 type ContractFile struct {
+	PropFiles []PropFile
 	Effects  []EffectDirective
 	Guards   []GuardDirective
 	TypeInvs []*TypeInv
@@ -227,10 +232,24 @@ func parseContracts(path string) (*ContractFile, error) {
 			}
 			for _, f := range strings.Split(parts[2], ",") {
 				if f = strings.TrimSpace(f); f != "" {
-					ti.Owners = append(ti.Owners, f)
+					if strings.HasSuffix(f, "!") {
+						// preserving writer: may write the fields, must re-establish the
+						// invariant right after each such write, and may assume it elsewhere
+						ti.Preserving = append(ti.Preserving, strings.TrimSuffix(f, "!"))
+					} else {
+						ti.Owners = append(ti.Owners, f)
+					}
 				}
 			}
 			cf.TypeInvs = append(cf.TypeInvs, ti)
+			cur = nil
+			continue
+		case strings.HasPrefix(t, "propagatesfile "):
+			fs := strings.Fields(t)
+			if len(fs) != 4 {
+				return nil, fmt.Errorf("line %d: propagatesfile Cxx file.go regexp", no)
+			}
+			cf.PropFiles = append(cf.PropFiles, PropFile{fs[1], fs[2], fs[3]})
 			cur = nil
 			continue
 		case strings.HasPrefix(t, "sweepfile "), strings.HasPrefix(t, "sweep "):
@@ -283,16 +302,27 @@ func parseContracts(path string) (*ContractFile, error) {
 		switch word {
 		case "requires", "ensures", "lemma":
 			c.Kind = word
-			if word == "requires" && strings.HasPrefix(rest, "typeinv ") {
+			if word == "requires" && (strings.HasPrefix(rest, "typeinv ") || strings.HasPrefix(rest, "typeinv[")) {
 				// restates a declared type invariant: established by the typeinv
 				// frame.write argument, not re-proved at every (non-owner) call site
 				c.TypeInv = true
-				rest = strings.TrimSpace(strings.TrimPrefix(rest, "typeinv "))
+				rest = strings.TrimSpace(strings.TrimPrefix(rest, "typeinv"))
+				if strings.HasPrefix(rest, "[") {
+					if j := strings.Index(rest, "]"); j > 0 {
+						c.TypeInvOf = rest[1:j]
+						rest = strings.TrimSpace(rest[j+1:])
+					}
+				}
 			}
 			if m := labelRe.FindStringSubmatch(rest); m != nil {
 				c.Label = m[1]
 				rest = rest[len(m[0]):]
 			}
+			c.Expr = rest
+		case "propagates":
+			// [Cxx] propagates <regexp of callee names>: a non-nil error returned by any
+			// matching callee must make this function return a non-nil error
+			c.Kind = "propagates"
 			c.Expr = rest
 		case "nopanic", "pure", "trusted", "nonil", "fparith":
 			c.Kind = word
